@@ -70,6 +70,12 @@ EXTRA_DOCS = [
     # enclosed values whose content is the name of a defined @string, in fields with well-known keys
     '@string{jan = "Janvier"}\n@string{feb = {F}}\n@a{k, month = {jan}, note = "jan", year = {feb}}\n@b{j, month = "jan", pages = "feb", number = jan}',
     '@a{k, month = {jan}, year = "1990", volume = {12}, pages = {mar}}\n@string{mar = {M}}',
+    # field keys spelled like the names Entry's item access reserves for the key and the type
+    '@misc{smith20,\n  title = {T},\n  ID = {rec-77},\n  ENTRYTYPE = "legacy",\n  year = 2020\n}\n@a{k2, ENTRYTYPE = {x}}\n@b{ID, ID = ID}',
+    # texts, keys and values ending in two, three and four backslashes (an even run is complete control sequences: it still
+    # must not swallow the delimiter when read again)
+    "@comment{a\\\\ }\n@comment{b\\\\\\ }\n@comment{c\\\\\\\\ }\n@a{k, t = {u}}\n@comment{reviewed by A. \\\\\n}\n@b{j}",
+    "@a{k, t = {line break: \\\\ }, u = \"v\\\\ \", w = {x\\\\\\\\ }}\n@string{s = {z\\\\ }}\n@preamble{p\\\\ }",
 ]
 
 
